@@ -4,7 +4,7 @@
    battery, reload) is decided per run by the sanitizers, the watchdog and the verified checker
    wf_check on the real library (checks/c06.py). *)
 From Coq Require Import String NArith ZArith List.
-From HV Require Import Base.Bytes Text.XmlLex Text.XmlLexProofs.
+From HV Require Import Base.Bytes Text.XmlLex Text.XmlLexProofs Text.Base64 Text.Base64Mem Text.Base64MemProofs.
 Import ListNotations.
 Local Open Scope N_scope.
 
@@ -34,6 +34,23 @@ Theorem close_content_needs_protocol :
   exists s n st, wfb s n /\ cur_ok n st /\ exists s', close_content s st = Ok s' /\ ~ wfb s' n.
 Proof. exact close_content_needs_protocol_lemma. Qed.
 Print Assumptions close_content_needs_protocol.
+
+(* the base64 decoder of <userdata encoding="base64"> (hwloc_decode_from_base64 with its four bound tests, target
+   modelled as a block of targsize bytes with checked reads and stores): for EVERY source string and EVERY target
+   size no access falls at an index >= targsize; the count it returns is at most targsize *)
+Theorem b64_decode_in_bounds : forall src targsize, decode_mem src targsize <> Oob.
+Proof. exact b64_decode_in_bounds_lemma. Qed.
+Print Assumptions b64_decode_in_bounds.
+Theorem b64_decode_count : forall src targsize n out,
+  decode_mem src targsize = Ok (Some (n, out)) -> n <= targsize /\ len out = targsize.
+Proof. exact b64_decode_count_lemma. Qed.
+Print Assumptions b64_decode_count.
+(* the importer's call: length+1 bytes for length decoded bytes; one byte less is refused, not overrun *)
+Example b64_decode_exact_fit :
+  decode_mem (bytes_of_string "YWJjZA==") 5 = Ok (Some (4, [97; 98; 99; 100; 0])) /\
+  decode_mem (bytes_of_string "YWJjZA==") 4 = Ok None /\
+  decode_mem (bytes_of_string "YWJjZGU=") 5 = Ok None.
+Proof. vm_compute. repeat split. Qed.
 
 (* ---- non-vacuity: a concrete block meeting the hypotheses, and what the model computes on it ---- *)
 Definition doc1 : list N := cstr "<topology version=""2.0""><object type=""Machine"" name=""a&amp;b""><info name=""x""/></object></topology>".
